@@ -154,6 +154,10 @@ class Hasher(Pickler):
     # additional 'obj' argument in Python 3.14
     def _batch_setitems(self, items, *args):
         # forces order of keys in dict to ensure consistent hash.
+        # ``items`` can be a one-shot iterator (this is what pickle passes for
+        # OrderedDict and other dict subclasses): it is scanned below before
+        # being sorted.
+        items = list(items)
         try:
             # Trying first to compare dict assuming the type of keys is
             # consistent and orderable.
